@@ -643,7 +643,9 @@ def judge(chk, c, evs):
                 report('angle', 'turn sweeps %.9f rad (mod 2 pi), requested %.9f' % (swept, ang))
                 return
             # vertices in order along the arc
-            def f(u, cc=cc, a_s=a_s, ang=ang, r=r):
+            # (about the reconstructed centre the sweep is the requested angle up to the difference accepted above: the curve the vertices
+            # are located on ends where the last vertex is, not that difference short of it)
+            def f(u, cc=cc, a_s=a_s, ang=ang + diff, r=r):
                 a = a_s + ang * u
                 return (cc[0] + r * math.cos(a), cc[1] + r * math.sin(a))
             if check_on_curve(f, new, cur, tol, scale + r, name, False, report) is None:
